@@ -274,7 +274,7 @@ fn hostile_world(rng: &mut Rng) -> (World, &'static str) {
         26 => {
             label = "signal-chain";
             // a straight-line chain of signals, each computed from the one before
-            let n = 20 + rng.usize(380);
+            let n = 20 + rng.usize(230);
             let mut s = String::from("pragma circom 2.0.0;\ntemplate T() {\n  signal input a;\n  signal output b;\n");
             for k in 0..n {
                 s.push_str(&format!("  signal s{k};\n"));
@@ -356,6 +356,7 @@ pub fn build_case(seed: u64, i: usize, thorough: bool) -> Built {
         let p = gen::gen_project(&mut r_proj, &knobs, &shape);
         let mut style = Style::random(&mut r_style);
         style.hostile_comments = r_style.chance(1, 6);
+        style.bom = r_style.chance(1, 40);
         let w = p.render(&mut r_style, &style);
         (Some(p), w, "generated")
     };
@@ -441,6 +442,19 @@ pub fn build_case(seed: u64, i: usize, thorough: bool) -> Built {
         plan.shortread = 1 + r_fault.below(64) as i64;
         configured.push("short-read".into());
     }
+    // the environment the tool consults: the log filter (debug and trace lines evaluate
+    // their arguments only when enabled), colour and terminal hints, a temp directory
+    let mut r_env = base.sub("env");
+    if r_env.chance(1, 10) {
+        let v = *r_env.pick(&["debug", "trace", "circomspect_parser=debug", "circomspect_program_structure=trace", "warn", "off", "info,circomspect_program_analysis=trace"]);
+        plan.env.push(("RUST_LOG".into(), v.into()));
+        configured.push("env:RUST_LOG".into());
+    }
+    if r_env.chance(1, 20) {
+        let (k, v) = *r_env.pick(&[("NO_COLOR", "1"), ("TERM", "dumb"), ("CLICOLOR_FORCE", "1"), ("TMPDIR", "/tmp"), ("TMPDIR", "/dev/shm"), ("HOME", "/nonexistent"), ("LANG", "tr_TR.UTF-8")]);
+        plan.env.push((k.into(), v.into()));
+        configured.push("env:other".into());
+    }
     let mut argv = opts.argv();
     // sometimes name the directory instead of files
     if mode == "generated" && r_mode.chance(1, 10) {
@@ -449,6 +463,18 @@ pub fn build_case(seed: u64, i: usize, thorough: bool) -> Built {
         configured.push("dir-order".into());
     } else {
         argv.extend(named);
+    }
+    // neighbours the tool has no business with, but meets when it lists a directory or
+    // follows an include: an empty file, names in another case, names that are not UTF-8
+    let mut world = world;
+    if mode.starts_with("generated") && r_env.chance(1, 8) {
+        match r_env.usize(4) {
+            0 => world.put("empty_stub.circom", ""),
+            1 => world.put("MAIN.CIRCOM", "pragma circom 2.0.0;\ntemplate Upper() { signal input a; }\n"),
+            2 => world.put("notes.CIRCOM", "not circom at all\n"),
+            _ => world.put("readme – final ’€.txt", "x\n"),
+        }
+        configured.push("odd-neighbour-file".into());
     }
     Built { case: Case { world, argv, plan }, mode, configured }
 }
